@@ -120,7 +120,7 @@ pub fn run(e: &'static Engine) {
     // generated: random cells, and steered matrices (whole rows/columns of one value with isolated exceptions at
     // word-size boundaries, run-length patterns, uniform rectangles), so that a renderer that packs, chunks or
     // run-length-encodes rows is driven through its uniform-chunk paths
-    let total: u32 = e.tier.pick(9600, 160000);
+    let total: u32 = e.tier.pick(32000, 320000);
     let shards = e.tier.pick(32u32, 96);
     let mut jobs: Vec<Job> = Vec::new();
     for _ in 0..shards {
